@@ -19,6 +19,10 @@ var Checks = map[string]vh.CheckFunc{
 	"C11": C11,
 	"C13": C13,
 	"C18": C18,
+	// matching as the engine and the scripts use it
+	"C01step": C01step,
+	"C02step": C02step,
+	"C03js":   C03js,
 }
 
 type M = map[string]interface{}
